@@ -282,7 +282,427 @@ Section Chunking.
         { rewrite <- (app_nil_r (concat xs)). rewrite <- Hxs at 1. apply Hconv; auto. }
         rewrite Hcv. rewrite takeZ_all by (rewrite out_len, Hxs; auto).
         rewrite IH; auto; [|rewrite Es, lenZ_app in Hn; lia|lia].
-        cbn [rev]. rewrite concat_app. cbn [concat]. rewrite app_nil_r, <- app_assoc. apply f_equal.
+        cbn [rev]. rewrite concat_app. cbn [concat]. rewrite app_nil_r, <- app_assoc.
+        replace (concat (map f es)) with (concat (map f xs) ++ concat (map f ys)); [reflexivity|].
         transitivity (concat (map f (xs ++ ys))); [now rewrite map_app, concat_app | now rewrite <- Es].
   Qed.
 End Chunking.
+
+(* ================================================================= top level: library-created headers *)
+Definition wz (t : dtype) : Z := Z.of_nat (width t).
+Definition std_tt (t : dtype) : toktype :=
+  {| tt_toks := [ {| tk_type := t; tk_len := 1; tk_fsize := wz t; tk_msize := wz t |} ];
+     tt_fbytes := wz t; tt_mbytes := wz t |}.
+
+Lemma eval_std h t : std_sizes h -> t <> MT -> evaluate_datatype h t = Ok (std_tt t).
+Proof.
+  intros (Hc & Hi & Hl & Hf & Hd) Ht. destruct t; try congruence; unfold evaluate_datatype, std_tt, wz;
+    rewrite ?Hc, ?Hi, ?Hl, ?Hf, ?Hd; reflexivity.
+Qed.
+
+Lemma width_in t : t <> MT -> In (width t) [1; 4; 8; 16]%nat.
+Proof. destruct t; simpl; intros; try congruence; auto 10. Qed.
+
+Lemma is_fmt_notN c : is_fmt c -> (c =? chN) = false.
+Proof. intros [->| ->]; reflexivity. Qed.
+
+(* ADFI_convert_number_format on an array of equal-width elements is element-wise [xlate] *)
+Lemma convert_std ff fos tf tos dir t es rest temp :
+  is_fmt ff -> is_fmt fos -> is_fmt tf -> is_fmt tos -> formats_equal ff tf fos tos = false ->
+  t <> MT -> es <> [] -> Forall (fun e => lenZ e = wz t) es ->
+  convert_number_format ff fos tf tos dir (std_tt t) (lenZ es) (concat es ++ rest) temp
+  = Ok (concat (map (xlate ff tf) es)).
+Proof.
+  intros Hff Hfos Htf Htos Hne Ht Hes Hall. unfold convert_number_format, convert_with.
+  assert (lenZ es <> 0) by (destruct es; [congruence|unfold lenZ; simpl; lia]).
+  destruct (Z.eqb_spec (lenZ es) 0); [contradiction|].
+  rewrite (is_fmt_notN ff), (is_fmt_notN tf), Hne by assumption. cbn [orb].
+  unfold lenZ at 1. rewrite Nat2Z.id.
+  destruct (conv_elems_elementwise (classify ff tf fos tos) ff tf fos tos t (wz t) (wz t) (xlate ff tf))
+    with (dir := dir) (tok := {| tk_type := t; tk_len := 1; tk_fsize := wz t; tk_msize := wz t |})
+         (es := es) (rest := rest) (temp := temp) as [temp' E]; auto.
+  - intros x r tp Hx. split.
+    + apply leaf_equal_width; auto using width_in. unfold lenZ, wz in Hx. lia.
+    + unfold lenZ in *. now rewrite xlate_length.
+  - destruct dir; reflexivity.
+  - destruct dir; reflexivity.
+  - cbn [std_tt tt_toks]. now rewrite E.
+Qed.
+
+Lemma wz_pos t : t <> MT -> 1 <= wz t <= 16.
+Proof. destruct t; unfold wz; simpl; intros; try congruence; lia. Qed.
+
+(* ---- single element: semantic statement *)
+Lemma to_file1_std m mf mo h t x temp :
+  machine_format_of m = (mf, mo) -> is_fmt mf -> is_fmt mo -> is_fmt (h_format h) -> is_fmt (h_os h) ->
+  formats_equal mf (h_format h) mo (h_os h) = false -> std_sizes h -> t <> MT -> lenZ x = wz t ->
+  to_file1 m h t x temp = Ok (xlate mf (h_format h) x).
+Proof.
+  intros Hm Hmf Hmo Hhf Hho Hne Hstd Ht Hx. unfold to_file1. rewrite Hm, (eval_std h t Hstd Ht). cbn [bindr].
+  pose proof (convert_std mf mo (h_format h) (h_os h) false t [x] [] temp Hmf Hmo Hhf Hho Hne Ht) as E.
+  cbn [concat map] in E. rewrite !app_nil_r in E. apply E; [discriminate|]. constructor; auto.
+Qed.
+
+Lemma from_file1_std m mf mo h t y temp :
+  machine_format_of m = (mf, mo) -> is_fmt mf -> is_fmt mo -> is_fmt (h_format h) -> is_fmt (h_os h) ->
+  formats_equal (h_format h) mf (h_os h) mo = false -> std_sizes h -> t <> MT -> lenZ y = wz t ->
+  from_file1 m h t y temp = Ok (xlate (h_format h) mf y).
+Proof.
+  intros Hm Hmf Hmo Hhf Hho Hne Hstd Ht Hx. unfold from_file1. rewrite Hm, (eval_std h t Hstd Ht). cbn [bindr].
+  pose proof (convert_std (h_format h) (h_os h) mf mo true t [y] [] temp Hhf Hho Hmf Hmo Hne Ht) as E.
+  cbn [concat map] in E. rewrite !app_nil_r in E. apply E; [discriminate|]. constructor; auto.
+Qed.
+
+Lemma formats_equal_sym a b c d : is_fmt a -> is_fmt b -> is_fmt c -> is_fmt d ->
+  formats_equal b a d c = formats_equal a b c d.
+Proof. intros [->| ->] [->| ->] [->| ->] [->| ->]; reflexivity. Qed.
+
+Lemma scalar_notMT t : scalar t = true -> t <> MT.
+Proof. destruct t; simpl; congruence. Qed.
+
+Lemma to_file_is_encoding m mf mo h t v temp :
+  machine_format_of m = (mf, mo) -> is_fmt mf -> is_fmt mo -> is_fmt (h_format h) -> is_fmt (h_os h) ->
+  formats_equal mf (h_format h) mo (h_os h) = false -> std_sizes h -> scalar t = true ->
+  to_file1 m h t (enc mf (width t) v) temp = Ok (enc (h_format h) (width t) v).
+Proof.
+  intros. rewrite (to_file1_std m mf mo); auto using scalar_notMT.
+  - now rewrite xlate_enc.
+  - unfold lenZ, wz. now rewrite enc_length.
+Qed.
+
+(* layout documentation: a complex element is translated as ONE 8/16-byte unit, so with different byte orders
+   the file holds (imaginary, real) in the file's byte order *)
+Lemma complex_layout m mf mo h t (n : nat) re im temp :
+  machine_format_of m = (mf, mo) -> is_fmt mf -> is_fmt mo -> is_fmt (h_format h) -> is_fmt (h_os h) ->
+  formats_equal mf (h_format h) mo (h_os h) = false -> std_sizes h ->
+  (t = X4 /\ n = 4%nat) \/ (t = X8 /\ n = 8%nat) -> mf <> h_format h ->
+  to_file1 m h t (enc mf n re ++ enc mf n im) temp = Ok (enc (h_format h) n im ++ enc (h_format h) n re).
+Proof.
+  intros Hm Hmf Hmo Hhf Hho Hne Hstd Ht Hdiff.
+  rewrite (to_file1_std m mf mo); auto.
+  - assert (Hr : forall v, rev (enc mf n v) = enc (h_format h) n v).
+    { intros v. pose proof (xlate_enc mf (h_format h) n v Hmf Hhf) as E. unfold xlate in E.
+      destruct (Z.eqb_spec mf (h_format h)); [contradiction|exact E]. }
+    unfold xlate. destruct (Z.eqb_spec mf (h_format h)); [contradiction|].
+    now rewrite rev_app_distr, !Hr.
+  - destruct Ht as [[-> ->]|[-> ->]]; discriminate.
+  - unfold lenZ. rewrite app_length, !enc_length. destruct Ht as [[-> ->]|[-> ->]]; reflexivity.
+Qed.
+
+Lemma roundtrip1 m mf mo h t x temp temp' :
+  machine_format_of m = (mf, mo) -> is_fmt mf -> is_fmt mo -> is_fmt (h_format h) -> is_fmt (h_os h) ->
+  formats_equal mf (h_format h) mo (h_os h) = false -> std_sizes h -> t <> MT -> lenZ x = wz t ->
+  bindr (to_file1 m h t x temp) (fun y => from_file1 m h t y temp') = Ok x.
+Proof.
+  intros. rewrite (to_file1_std m mf mo) by auto. cbn [bindr].
+  rewrite (from_file1_std m mf mo); auto.
+  - now rewrite xlate_inv.
+  - now rewrite formats_equal_sym.
+  - unfold lenZ in *. now rewrite xlate_length.
+Qed.
+
+(* ---- the chunk loops, for any element-wise converter (C19_chunking) *)
+Lemma chunk_bounds osz : 0 < osz <= CONVERSION_BUFF_SIZE ->
+  1 <= CONVERSION_BUFF_SIZE / osz /\ CONVERSION_BUFF_SIZE / osz * osz <= CONVERSION_BUFF_SIZE.
+Proof.
+  intros H. split.
+  - apply Z.div_le_lower_bound; lia.
+  - rewrite Z.mul_comm. apply Z.mul_div_le. lia.
+Qed.
+
+Lemma write_translated_gen_spec conv f isz osz total es :
+  (forall es rest, es <> [] -> Forall (fun e => lenZ e = isz) es ->
+      conv (lenZ es) (concat es ++ rest) = Ok (concat (map f es))) ->
+  (forall x, lenZ x = isz -> lenZ (f x) = osz) ->
+  0 < osz <= CONVERSION_BUFF_SIZE -> Forall (fun e => lenZ e = isz) es -> total / osz = lenZ es ->
+  exists ws, write_translated_gen conv isz osz total (concat es) = (ws, NO_ERROR)
+    /\ concat (map snd ws) = concat (map f es) /\ contiguous 0 ws
+    /\ Forall (fun w => lenZ (snd w) <= CONVERSION_BUFF_SIZE) ws.
+Proof.
+  intros Hconv Hf Hosz Hall Hn. unfold write_translated_gen.
+  destruct (Z.leb_spec osz 0); [lia|].
+  destruct (chunk_bounds osz Hosz) as [Hc1 Hc2].
+  destruct (Z.ltb_spec (CONVERSION_BUFF_SIZE / osz) 1); [lia|].
+  rewrite Hn.
+  destruct (write_loop_inv conv f isz osz Hconv Hf (S (Z.to_nat (lenZ es))) es 0 (CONVERSION_BUFF_SIZE / osz) 0 []
+              (lenZ es) Hall Hc1) as (ws & E & Hcat & Hcont & Hsz); [lia|unfold lenZ; lia|].
+  exists ws. rewrite E. cbn [rev app]. repeat split; auto.
+  eapply Forall_impl; [|exact Hsz]. cbv beta. intros. lia.
+Qed.
+
+Lemma read_translated_gen_spec conv f isz osz total es tail :
+  (forall es rest, es <> [] -> Forall (fun e => lenZ e = isz) es ->
+      conv (lenZ es) (concat es ++ rest) = Ok (concat (map f es))) ->
+  (forall x, lenZ x = isz -> lenZ (f x) = osz) ->
+  0 < isz <= CONVERSION_BUFF_SIZE -> Forall (fun e => lenZ e = isz) es -> total / isz = lenZ es ->
+  read_translated_gen conv osz isz total (concat es ++ tail) = (concat (map f es), NO_ERROR).
+Proof.
+  intros Hconv Hf Hisz Hall Hn. unfold read_translated_gen.
+  destruct (Z.leb_spec isz 0); [lia|].
+  destruct (chunk_bounds isz Hisz) as [Hc1 Hc2].
+  destruct (Z.ltb_spec (CONVERSION_BUFF_SIZE / isz) 1); [lia|].
+  rewrite Hn.
+  rewrite (read_loop_inv conv f isz osz Hconv Hf); auto; try (unfold lenZ; lia).
+Qed.
+
+(* a converter that refuses (whatever the data) makes the write loop issue no ADFI_write_file at all *)
+Lemma refused_writes_nothing conv isz osz total data :
+  (forall k d, 0 < k -> exists e, conv k d = Err e /\ e <> NO_ERROR) ->
+  fst (write_translated_gen conv isz osz total data) = []
+  /\ (0 < osz <= CONVERSION_BUFF_SIZE -> 0 < total / osz -> snd (write_translated_gen conv isz osz total data) <> NO_ERROR).
+Proof.
+  intros Hc. unfold write_translated_gen.
+  destruct (Z.leb_spec osz 0); [split; [reflexivity|lia]|].
+  destruct (Z.ltb_spec (CONVERSION_BUFF_SIZE / osz) 1).
+  { split; [reflexivity|]. intros Hb. destruct (chunk_bounds osz Hb). lia. }
+  cbn [write_loop ws_done ws_chunk ws_data].
+  destruct (Z.ltb_spec 0 (total / osz)); [|split; [reflexivity|lia]].
+  match goal with |- context [conv ?k ?d] => destruct (Hc k d) as (e & E & Hne) end.
+  { destruct (Z.gtb_spec (0 + CONVERSION_BUFF_SIZE / osz) (total / osz)); lia. }
+  rewrite E. split; [reflexivity|]. intros _ _. exact Hne.
+Qed.
+
+(* ---- arrays through both loops: what reaches the file, and the round trip *)
+Lemma array_roundtrip mf mo hf ho t es tail temp temp' :
+  is_fmt mf -> is_fmt mo -> is_fmt hf -> is_fmt ho -> formats_equal mf hf mo ho = false ->
+  t <> MT -> Forall (fun e => lenZ e = wz t) es ->
+  let total := lenZ es * wz t in
+  exists ws,
+    write_data_translated mf mo hf ho (std_tt t) (wz t) total (concat es) temp = (ws, NO_ERROR)
+    /\ contiguous 0 ws /\ Forall (fun w => lenZ (snd w) <= CONVERSION_BUFF_SIZE) ws
+    /\ concat (map snd ws) = concat (map (xlate mf hf) es)
+    /\ read_data_translated hf ho mf mo (std_tt t) (wz t) total (concat (map snd ws) ++ tail) temp'
+       = (concat es, NO_ERROR).
+Proof.
+  intros Hmf Hmo Hhf Hho Hne Ht Hall total.
+  pose proof (wz_pos t Ht) as Hw.
+  assert (Hdiv : total / wz t = lenZ es) by (unfold total; apply Z.div_mul; lia).
+  assert (Hb : 0 < wz t <= CONVERSION_BUFF_SIZE) by (unfold CONVERSION_BUFF_SIZE; lia).
+  destruct (write_translated_gen_spec
+              (fun k d => convert_number_format mf mo hf ho false (std_tt t) k d temp)
+              (xlate mf hf) (wz t) (wz t) total es) as (ws & E & Hcat & Hcont & Hsz); auto.
+  { intros es0 rest Hes0 Hall0. apply convert_std; auto. }
+  { intros x Hx. unfold lenZ in *. now rewrite xlate_length. }
+  exists ws. unfold write_data_translated. cbn [std_tt tt_mbytes]. rewrite E. repeat split; auto.
+  rewrite Hcat. unfold read_data_translated. cbn [std_tt tt_mbytes].
+  rewrite (read_translated_gen_spec
+             (fun k d => convert_number_format hf ho mf mo true (std_tt t) k d temp')
+             (xlate hf mf) (wz t) (wz t) total (map (xlate mf hf) es) tail); auto.
+  - rewrite map_map. rewrite (map_ext _ (fun x => x)) by (intros; apply xlate_inv). now rewrite map_id.
+  - intros es0 rest Hes0 Hall0. apply convert_std; auto. now rewrite formats_equal_sym.
+  - intros x Hx. unfold lenZ in *. now rewrite xlate_length.
+  - eapply Forall_map_len; [|exact Hall]. intros x Hx. unfold lenZ in *. now rewrite xlate_length.
+  - now rewrite lenZ_map.
+Qed.
+
+(* ================================================================= foreign headers: sizeof(long) = 4 *)
+Lemma this_host_format : machine_format_of this_host = (chL, chB).
+Proof. reflexivity. Qed.
+
+Definition sgn (b : Z) : Z := if Z.land b 128 =? 128 then 255 else 0.
+
+Lemma eval_long4 h t : long4_sizes h -> (t = I8 \/ t = U8) ->
+  evaluate_datatype h t = Ok {| tt_toks := [ {| tk_type := t; tk_len := 1; tk_fsize := 4; tk_msize := 8 |} ];
+                                tt_fbytes := 4; tt_mbytes := 8 |}.
+Proof. intros (_ & _ & Hl & _ & _) [->| ->]; unfold evaluate_datatype; rewrite Hl; reflexivity. Qed.
+
+(* I8 through a 32-bit file of either byte order, on this host: 4 bytes are stored, sign-extended on read *)
+Lemma i8_long4_to_file h b0 b1 b2 b3 b4 b5 b6 b7 temp :
+  long4_sizes h -> h_os h = chL -> is_fmt (h_format h) ->
+  to_file1 this_host h I8 [b0; b1; b2; b3; b4; b5; b6; b7] temp = Ok (xlate chL (h_format h) [b0; b1; b2; b3]).
+Proof.
+  intros Hs Ho Hf. unfold to_file1. rewrite this_host_format, (eval_long4 h I8 Hs) by auto. rewrite Ho.
+  destruct Hf as [E|E]; rewrite E; vm_compute; reflexivity.
+Qed.
+
+Lemma i8_long4_roundtrip_bytes h b0 b1 b2 b3 b4 b5 b6 b7 temp temp' :
+  long4_sizes h -> h_os h = chL -> is_fmt (h_format h) ->
+  bindr (to_file1 this_host h I8 [b0; b1; b2; b3; b4; b5; b6; b7] temp)
+        (fun y => from_file1 this_host h I8 y temp')
+  = Ok [b0; b1; b2; b3; sgn b3; sgn b3; sgn b3; sgn b3].
+Proof.
+  intros Hs Ho Hf. unfold to_file1, from_file1. rewrite this_host_format, (eval_long4 h I8 Hs) by auto. rewrite Ho.
+  destruct Hf as [E|E]; rewrite E; vm_compute; reflexivity.
+Qed.
+
+Ltac Zify.zify_post_hook ::= Z.div_mod_to_equations.
+
+Lemma i8_long4_iff h v temp temp' :
+  long4_sizes h -> h_os h = chL -> is_fmt (h_format h) -> - 2 ^ 63 <= v < 2 ^ 63 ->
+  (bindr (to_file1 this_host h I8 (enc_le 8 v) temp) (fun y => from_file1 this_host h I8 y temp')
+   = Ok (enc_le 8 v)) <-> - 2 ^ 31 <= v < 2 ^ 31.
+Proof.
+  intros Hs Ho Hf Hv.
+  pose proof (enc_le_dec 8 v) as Hdec. pose proof (enc_le_bytes 8 v) as Hb. pose proof (enc_le_length 8 v) as Hl.
+  remember (enc_le 8 v) as l eqn:El. clear El.
+  explode l Hl. clear Hl.
+  rewrite i8_long4_roundtrip_bytes by auto.
+  repeat match goal with H : Forall _ (_ :: _) |- _ => apply Forall_cons_iff in H; destruct H as [? H] end.
+  cbn [dec_le] in Hdec. change (256 ^ Z.of_nat 8) with 18446744073709551616 in Hdec.
+  unfold sgn. rewrite land128 by assumption.
+  change (2 ^ 63) with 9223372036854775808 in Hv. change (2 ^ 31) with 2147483648.
+  destruct (Z.leb_spec 128 z2); split; intros G.
+  - injection G as E1 E2 E3 E4. lia.
+  - assert (z3 = 255 /\ z4 = 255 /\ z5 = 255 /\ z6 = 255) as (-> & -> & -> & ->) by lia. reflexivity.
+  - injection G as E1 E2 E3 E4. lia.
+  - assert (z3 = 0 /\ z4 = 0 /\ z5 = 0 /\ z6 = 0) as (-> & -> & -> & ->) by lia. reflexivity.
+Qed.
+
+(* ================================================================= what cannot be honoured is refused *)
+Definition tt_long4 (t : dtype) : toktype :=
+  {| tt_toks := [ {| tk_type := t; tk_len := 1; tk_fsize := 4; tk_msize := 8 |} ]; tt_fbytes := 4; tt_mbytes := 8 |}.
+
+(* U8 in a 32-bit file (either byte order) whose long is 4 bytes: both directions, any count, any data *)
+Lemma u8_long4_refused hf dir k d temp :
+  is_fmt hf -> 0 < k ->
+  (if dir : bool then convert_number_format hf chL chL chB true (tt_long4 U8) k d temp
+   else convert_number_format chL chB hf chL false (tt_long4 U8) k d temp) = Err INVALID_DATA_TYPE.
+Proof.
+  intros Hf Hk. unfold convert_number_format, convert_with.
+  destruct (Z.eqb_spec k 0); [lia|].
+  destruct (Z.to_nat k) as [|n'] eqn:Ek; [lia|].
+  destruct Hf as [-> | ->]; destruct dir; vm_compute; reflexivity.
+Qed.
+
+(* a 64-bit big-endian file whose header nevertheless says long = 4: I8 and U8 are refused *)
+Lemma long4_big64_refused t dir k d temp :
+  t = I8 \/ t = U8 -> 0 < k ->
+  (if dir : bool then convert_number_format chB chB chL chB true (tt_long4 t) k d temp
+   else convert_number_format chL chB chB chB false (tt_long4 t) k d temp) = Err DATA_TYPE_NOT_SUPPORTED.
+Proof.
+  intros Ht Hk. unfold convert_number_format, convert_with.
+  destruct (Z.eqb_spec k 0); [lia|].
+  destruct (Z.to_nat k) as [|n'] eqn:Ek; [lia|].
+  destruct Ht as [-> | ->]; destruct dir; vm_compute; reflexivity.
+Qed.
+
+(* native 'N' on either side *)
+Lemma native_refused ff fos tf tos dir tt k d temp :
+  k <> 0 -> ff = chN \/ tf = chN ->
+  convert_number_format ff fos tf tos dir tt k d temp = Err CANNOT_CONVERT_NATIVE_FORMAT.
+Proof.
+  intros Hk H. unfold convert_number_format, convert_with.
+  destruct (Z.eqb_spec k 0); [contradiction|].
+  destruct H as [-> | ->]; [reflexivity|]. now rewrite Bool.orb_true_r.
+Qed.
+
+(* a combination of format / os letters outside the switch (unknown letters, or a known pair the switch does
+   not list) reaches "default:" on the first element *)
+Lemma unknown_letters_refused ff fos tf tos dir t k d temp :
+  0 < k -> t <> MT -> (ff =? chN) || (tf =? chN) = false -> formats_equal ff tf fos tos = false ->
+  classify ff tf fos tos = CNone ->
+  convert_number_format ff fos tf tos dir (std_tt t) k d temp = Err MACHINE_FORMAT_NOT_RECOGNIZED.
+Proof.
+  intros Hk Ht HN Hne Hc. unfold convert_number_format, convert_with.
+  destruct (Z.eqb_spec k 0); [lia|]. rewrite HN, Hne, Hc.
+  destruct (Z.to_nat k) as [|n'] eqn:Ek; [lia|].
+  cbn [conv_elems std_tt tt_toks conv_tokens tk_len]. change (Z.to_nat 1) with 1%nat.
+  cbn [conv_array conv_leaf]. reflexivity.
+Qed.
+
+(* every refusal of the converter means: ADFI_write_data_translated issues no write and reports the error *)
+Lemma refused_no_write mf mo ff fo tt e total data temp :
+  (forall k d, 0 < k -> convert_number_format mf mo ff fo false tt k d temp = Err e) -> e <> NO_ERROR ->
+  fst (write_data_translated mf mo ff fo tt (tt_fbytes tt) total data temp) = []
+  /\ (0 < tt_fbytes tt <= CONVERSION_BUFF_SIZE -> 0 < total / tt_fbytes tt ->
+      snd (write_data_translated mf mo ff fo tt (tt_fbytes tt) total data temp) <> NO_ERROR).
+Proof.
+  intros H He. unfold write_data_translated. apply refused_writes_nothing.
+  intros k d Hk. exists e. split; auto.
+Qed.
+
+(* ---- the historical defect (before /repo commit e4e8197): the resize error was masked *)
+Lemma masked_error_refuted :
+  exists x1 x2 temp,
+    x1 <> x2 /\
+    convert_number_format_old chL chB chB chL false (tt_long4 U8) 1 x1 temp = Ok [0; 0; 0; 0] /\
+    convert_number_format_old chL chB chB chL false (tt_long4 U8) 1 x2 temp = Ok [0; 0; 0; 0] /\
+    convert_number_format chL chB chB chL false (tt_long4 U8) 1 x1 temp = Err INVALID_DATA_TYPE.
+Proof.
+  exists [1; 2; 3; 4; 5; 6; 7; 8], [17; 18; 19; 20; 21; 22; 23; 24], (repeat 0 16).
+  split; [discriminate|]. repeat split; vm_compute; reflexivity.
+Qed.
+
+(* ================================================================= the format that is reported *)
+(* the letters ADF_Database_Get_Format looks at are bytes 100 and 101 of the file, which are the letters
+   ADFI_fill_initial_file_header put there *)
+Lemma header_bytes_letters h : nthZ (header_bytes h) 0 0 = h_format h /\ nthZ (header_bytes h) 1 0 = h_os h.
+Proof. split; reflexivity. Qed.
+
+Lemma parse_header_letters b h : parse_header_bytes b = Ok h -> h_format h = nthZ b 0 0 /\ h_os h = nthZ b 1 0.
+Proof.
+  unfold parse_header_bytes. intros H.
+  repeat match type of H with
+         | bindr ?r _ = _ => destruct r; cbn [bindr] in H; [|discriminate H]
+         end.
+  injection H as <-. split; reflexivity.
+Qed.
+
+Lemma reported_is_written h h' : parse_header_bytes (header_bytes h) = Ok h' -> get_format h' = get_format h.
+Proof.
+  intros H. apply parse_header_letters in H as [Hf Ho]. destruct (header_bytes_letters h) as [Ef Eo].
+  unfold get_format. now rewrite Hf, Ho, Ef, Eo.
+Qed.
+
+(* the six format names of C19 on this host: creation succeeds and the reported name is the requested one,
+   NATIVE and LEGACY being resolved to the host's own format *)
+Definition resolved_name (s : list Z) : list Z :=
+  if stridx0 S_NATIVE s || stridx0 S_LEGACY s then S_IEEE_LITTLE_64 else s.
+Definition list_eqb (a b : list Z) : bool :=
+  (length a =? length b)%nat && forallb (fun p => fst p =? snd p) (combine a b).
+Definition reported_ok (garb : Z * Z * Z) (s : list Z) : bool :=
+  match database_open_new this_host (Some s) garb with
+  | Ok h => match get_format h with Ok r => list_eqb r (resolved_name s) | Err _ => false end
+  | Err _ => false
+  end.
+Definition six_formats := [S_IEEE_BIG_32; S_IEEE_BIG_64; S_IEEE_LITTLE_32; S_IEEE_LITTLE_64; S_NATIVE; S_LEGACY].
+
+Lemma format_reported garb : forallb (reported_ok garb) six_formats = true.
+Proof. destruct garb as [[g1 g2] g3]. vm_compute. reflexivity. Qed.
+
+(* and every one of them writes sizeof(long) = 8, int 4, float 4, double 8, char 1 into the header *)
+Definition std_sizes_b (h : header) : bool :=
+  (h_char h =? 1) && (h_int h =? 4) && (h_long h =? 8) && (h_float h =? 4) && (h_double h =? 8).
+Lemma created_headers_std garb :
+  forallb (fun s => match database_open_new this_host (Some s) garb with Ok h => std_sizes_b h | Err _ => false end)
+          six_formats = true.
+Proof. destruct garb as [[g1 g2] g3]. vm_compute. reflexivity. Qed.
+
+(* an unrecognised format name: ADFI_figure_machine_format reports error 19 and leaves format_to_use /
+   os_to_use unwritten; ADF_Database_Open overwrites the error and goes on with whatever those two
+   variables held.  With values outside {B,L,C,N} the creation is refused (what happens in practice) ... *)
+Lemma bogus_name_refused_if_garbage_is_not_a_letter g1 g2 g3 :
+  (g2 =? chB) || (g2 =? chL) || (g2 =? chC) || (g2 =? chN) = false ->
+  database_open_new this_host (Some [66; 79; 71; 85; 83]) (g1, g2, g3) = Err ADF_FILE_FORMAT_NOT_RECOGNIZED.
+Proof.
+  intros H. unfold database_open_new. cbn [figure_machine_format requested_format].
+  change (figure_machine_format this_host (Some [66; 79; 71; 85; 83]) (g1, g2, g3))
+    with (ADF_FILE_FORMAT_NOT_RECOGNIZED, g1, g2, g3).
+  unfold fill_initial_file_header. rewrite this_host_format. rewrite H. reflexivity.
+Qed.
+(* ... but the refusal is an accident of the stack content *)
+Lemma bogus_name_accepted_refuted :
+  exists g h, database_open_new this_host (Some [66; 79; 71; 85; 83]) g = Ok h.
+Proof. eexists (0, chB, chL), _. vm_compute. reflexivity. Qed.
+
+(* opening: a header that claims the native format 'N' but other sizes than the host's is refused *)
+Lemma native_size_mismatch_refused h tt :
+  h_format h = chN -> h_long h <> 8 ->
+  file_and_machine_compare this_host false h tt = Err MACHINE_FILE_INCOMPATABLE.
+Proof.
+  intros Hf Hl. unfold file_and_machine_compare. rewrite this_host_format, Hf.
+  destruct (Z.eqb_spec (h_long h) SZ_CGLONG) as [E|E]; [unfold SZ_CGLONG in E; contradiction|].
+  cbn. rewrite !Bool.orb_true_r. reflexivity.
+Qed.
+
+(* a format / os letter pair that ADF_Database_Get_Format does not know is an error, never a guess *)
+Lemma get_format_unknown h :
+  get_format h = Err ADF_FILE_FORMAT_NOT_RECOGNIZED \/
+  exists s, get_format h = Ok s /\ In s [S_IEEE_BIG_32; S_IEEE_LITTLE_32; S_IEEE_BIG_64; S_IEEE_LITTLE_64; S_CRAY; S_NATIVE].
+Proof.
+  unfold get_format.
+  repeat match goal with
+         | |- context [if ?c then _ else _] => destruct c; [right; eexists; split; [reflexivity|simpl; auto 10]|]
+         end.
+  now left.
+Qed.
